@@ -64,6 +64,10 @@ func GetTermBytes(term interface{}) ([]byte, TermType) {
 		return []byte(val), TermString
 
 	case float64:
+		if val == 0 {
+			// -0 and +0 are the same number: index them as one term
+			val = 0
+		}
 		out := make([]byte, 8)
 		binary.BigEndian.PutUint64(out, math.Float64bits(val))
 		return out, TermNumber
